@@ -109,9 +109,9 @@ func newWorker(id int) *Worker {
 }
 
 func (w *Worker) Count(name string, d int64) { w.counters[name] += d }
-func (w *Worker) Distinct(h uint64)           { w.distinct[h] = struct{}{} }
-func (w *Worker) DistinctS(s string)          { w.distinct[Hash(s)] = struct{}{} }
-func (w *Worker) Note(k string, v any)        { w.notes[k] = v }
+func (w *Worker) Distinct(h uint64)          { w.distinct[h] = struct{}{} }
+func (w *Worker) DistinctS(s string)         { w.distinct[Hash(s)] = struct{}{} }
+func (w *Worker) Note(k string, v any)       { w.notes[k] = v }
 func (w *Worker) Sample(v any) {
 	if len(w.samples) < 4 {
 		w.samples = append(w.samples, v)
@@ -506,57 +506,47 @@ func parentMain(c *Ctx) int {
 	var skip []int
 	var extra []Violation
 	var last *childRun
-	describe := func(i int) string { return fmt.Sprintf("job#%d", i) }
-	for attempt := 0; attempt < 6; attempt++ {
+	stopped := 0
+	for attempt := 0; attempt < 3; attempt++ {
 		r := runChild(c, skip, -1, 0)
 		last = r
 		if r.res != nil {
 			break
 		}
-		// crash or hang: diagnose the in-flight jobs one by one
-		fmt.Fprintf(os.Stderr, "[%s] child %s; diagnosing %d in-flight job(s)\n", c.Spec.Engine, map[bool]string{true: "hung", false: "crashed"}[r.hung], len(r.inflight))
-		if len(r.inflight) == 0 {
-			extra = append(extra, Violation{Key: "run", Class: "harness-crash", Detail: map[string]any{"stderr": r.stderr}})
-			break
-		}
-		found := false
+		// crash or hang: find one in-flight job that reproduces it in isolation; that is a violation
+		// and ends the run (the exploration is then reported as not exhaustive)
+		what := map[bool]string{true: "hung", false: "crashed"}[r.hung]
+		fmt.Fprintf(os.Stderr, "[%s] child %s; diagnosing %d in-flight job(s)\n", c.Spec.Engine, what, len(r.inflight))
 		var js []int
 		for j := range r.inflight {
 			js = append(js, j)
 		}
 		sort.Ints(js)
+		confirmed := false
 		for _, j := range js {
-			bad := 0
-			var d *childRun
-			for k := 0; k < 2; k++ {
-				d = runChild(c, nil, j, c.Spec.JobTimeout)
-				if d.res == nil {
-					bad++
-				} else {
-					break
-				}
+			d := runChild(c, nil, j, c.Spec.JobTimeout)
+			if d.res != nil {
+				continue
 			}
-			if bad == 2 {
-				found = true
-				skip = append(skip, j)
-				cls := "fatal-crash"
-				if d.hung {
-					cls = "hang"
-				}
-				key := d.lastCase
-				if key == "" {
-					key = describe(j)
-				}
-				extra = append(extra, Violation{Key: key, Class: cls, Detail: map[string]any{"job": j, "stderr": firstLines(d.stderr, 40)}})
+			cls := "fatal-crash"
+			if d.hung {
+				cls = "hang"
 			}
+			key := d.lastCase
+			if key == "" {
+				key = fmt.Sprintf("job#%d", j)
+			}
+			extra = append(extra, Violation{Key: key, Class: cls, Detail: map[string]any{"job": j, "stderr": firstLines(d.stderr, 40)}})
+			confirmed = true
+			break
 		}
-		if !found {
-			// not reproducible in isolation: report once, do not loop forever
-			extra = append(extra, Violation{Key: "run", Class: "unattributed-" + map[bool]string{true: "hang", false: "crash"}[r.hung], Detail: map[string]any{"stderr": firstLines(r.stderr, 60), "jobs": js}})
-			skip = append(skip, js...)
+		if confirmed {
+			stopped = 1
+			break
 		}
+		fmt.Fprintf(os.Stderr, "[%s] the %s child could not be reproduced on any single job; retrying the run\n", c.Spec.Engine, what)
 	}
-	return finish(c, last, extra, len(skip))
+	return finish(c, last, extra, stopped)
 }
 
 func firstLines(s string, n int) string {
@@ -746,7 +736,7 @@ func finish(c *Ctx, last *childRun, extra []Violation, skipped int) int {
 		}
 		return 1
 	}
-	if last == nil || last.res == nil {
+	if (last == nil || last.res == nil) && len(extra) == 0 {
 		// could not complete at all and nothing attributed: broken harness
 		fmt.Fprintln(os.Stderr, "harness failure: no complete child run")
 		return 2
